@@ -74,6 +74,7 @@ def run_schedule(case):
     import asyncio
     from asynkit.experimental.priority import PrioritySelectorEventLoop
     n = case["n"]
+    fine = bool(case.get("fine"))
     loop = PrioritySelectorEventLoop()
     loop.ready_queue.priority_boost_factor = 0.0
     cv = threading.Condition()
@@ -114,9 +115,23 @@ def run_schedule(case):
     def cb(i):
         ran.append(i)
 
+    dcode = getattr(getattr(type(loop), "_drain_threadsafe_inbox", None), "__code__", None)
+
+    def dlocal(frame, event, arg):
+        if event == "line":
+            lctl.park(("dline", frame.f_lineno))
+        return dlocal
+
+    def dtracer(frame, event, arg):
+        if event == "call" and frame.f_code is dcode:
+            return dlocal
+        return None
+
     def loop_main():
         try:
             asyncio.set_event_loop(loop)
+            if fine and dcode is not None:
+                sys.settrace(dtracer)       # stream wakefine: the drain loop is single-stepped too
             loop.run_forever()
         except BaseException as e:     # an exception escaped from the loop
             died.append(type(e).__name__)
@@ -173,7 +188,7 @@ def run_schedule(case):
         return bool(r)
 
     def loop_pos():
-        return 0 if (lctl.where or ("drain",))[0] == "drain" else 1
+        return 0 if (lctl.where or ("drain",))[0] in ("drain", "dline") else 1
 
     def is_blocked():
         if lctl.state != "parked" or loop_pos() != 1:
@@ -198,9 +213,16 @@ def run_schedule(case):
     try:
         for tok in case["toks"]:
             if tok[0] == "L":
+                p0, in0 = loop_pos(), inbox_ids()
                 if lctl.state == "parked" and not is_blocked():
                     lctl.advance()
-                mtoks.append(["L"])
+                if fine and p0 == 0:
+                    # one source line of the drain: a stutter unless it moved a handle or ended the drain
+                    rd = ready_ids()
+                    moved = sum(1 for h in in0 if h in rd)
+                    mtoks.append(["S"] if (moved == 0 and loop_pos() == 0) else ["L"])
+                else:
+                    mtoks.append(["L"])
                 obs.append(observe())
                 continue
             i = tok[1]
@@ -297,8 +319,32 @@ def oracle(case, ob):
     return None
 
 
-def suffix(n):
-    return [["FF", i] for i in range(n)] + [["L"]] * 4
+def suffix(n, fine=False):
+    return [["FF", i] for i in range(n)] + [["L"]] * ((16 + 6 * n) if fine else 4)
+
+
+def gen_fine(rng, tier):
+    """the loop thread is ALSO single-stepped through the source lines of _drain_threadsafe_inbox
+    (model: Queue/WakeupFine.v, one handle per drain step): k submissions are complete when the drain
+    starts, a late one is performed - whole, or line by line with loop steps in between - after every
+    number j of loop lines"""
+    for k in (1, 2, 3):
+        n = k + 1
+        pre = [["FF", i] for i in range(k)]
+        for j in range(0, 2 * k + 8):
+            yield {"n": n, "fine": 1, "toks": pre + [["L"]] * j + [["FF", k]] + suffix(n, True)}
+        for j in range(0, 2 * k + 6, 1 if tier != "quick" else 2):
+            for a in (3, 5, 7, 8):
+                for m in (1, 2, 3):
+                    toks = pre + [["L"]] * j + [["F", k]] * a + [["L"]] * m
+                    yield {"n": n, "fine": 1, "toks": toks + suffix(n, True)}
+    for _ in range(100 if tier == "quick" else 1200):
+        n = rng.randint(1, 3)
+        toks = []
+        for _ in range(rng.randint(6, 48)):
+            r = rng.random()
+            toks.append(["L"] if r < 0.55 else ["F", rng.randrange(n)] if r < 0.9 else ["FF", rng.randrange(n)])
+        yield {"n": n, "fine": 1, "toks": toks + suffix(n, True)}
 
 
 def gen(rng, tier):
@@ -331,6 +377,11 @@ def nontrivial(case, ob):
 
 def shrink(case):
     toks = case["toks"]
-    body = toks[:-(case["n"] + 4)]
+    fine = bool(case.get("fine"))
+    sfx = suffix(case["n"], fine)
+    body = toks[:-len(sfx)]
     for k in range(len(body)):
-        yield {"n": case["n"], "toks": body[:k] + body[k + 1:] + suffix(case["n"])}
+        c = {"n": case["n"], "toks": body[:k] + body[k + 1:] + sfx}
+        if fine:
+            c["fine"] = 1
+        yield c
